@@ -342,6 +342,17 @@ func frac(ll orb.Point, z maptile.Zoom) pt {
 
 func drawCenter(s *core.Source, z maptile.Zoom, r float64) pt {
 	n := math.Exp2(float64(z))
+	if s.Chance(1, 12, "polar") && r < 0.1*n {
+		// right up to the edge of the quantifier's domain: the northern- or southernmost
+		// vertex ends up at a latitude in (84.99, 85) (fraction 0.001625n .. 0.001723n from the pole)
+		u := float64(s.Intn(1<<20, "cx")) / (1 << 20)
+		edge := (0.001628 + 0.00009*float64(s.Intn(1000, "edge"))/1000) * n
+		x := 0.02*n + r + u*(0.96*n-2*r)
+		if s.Bool("south") {
+			return pt{x, n - edge - r}
+		}
+		return pt{x, edge + r}
+	}
 	lo, hi := 0.02*n+r, 0.98*n-r
 	if hi <= lo {
 		return pt{n / 2, n / 2}
@@ -407,7 +418,7 @@ func drawShape(s *core.Source, z maptile.Zoom, areaOnly bool) *shape {
 		out := make([]orb.Point, len(ps))
 		for i, p := range ps {
 			// the quantifier's domain: lon in (-180,180), lat in (-85,85)
-			if p[0] <= 0.001*n || p[0] >= 0.999*n || p[1] <= 0.003*n || p[1] >= 0.997*n {
+			if p[0] <= 0.001*n || p[0] >= 0.999*n || p[1] <= 0.001626*n || p[1] >= (1-0.001626)*n { // |lat| < 85
 				panic(fmt.Sprintf("c14 generator produced an out-of-range vertex %v at zoom %d", p, z))
 			}
 			out[i] = toLonLat(p, z)
